@@ -154,3 +154,27 @@ pub fn fifo(total_rbf: impl Fn(u64) -> u64, limit: u64) -> SpecResult {
     }
     Some(best)
 }
+
+/// fixed-priority evaluator over arbitrary request-bound functions given as closures
+/// (used for the instances with the crate's real arrival types)
+pub fn fp_generic(
+    rbf_tua: impl Fn(u64) -> u64,
+    rbf_others: impl Fn(u64) -> u64,
+    blocking: u64,
+    rem_cost: u64,
+    limit: u64,
+) -> SpecResult {
+    let l = least_from_1(limit, |x| blocking + rbf_others(x) + rbf_tua(x))?;
+    let mut best = 0u64;
+    let mut a = 0u64;
+    while a < l {
+        let own = rbf_tua(a + 1) - rem_cost;
+        let af = least_from_1(limit, |x| blocking + own + rbf_others(x))?;
+        let r = af.saturating_sub(a) + rem_cost;
+        if r > best {
+            best = r;
+        }
+        a += 1;
+    }
+    Some(best)
+}
